@@ -733,3 +733,13 @@ def describe(inp):
     return "backend W=u%d %s ctor=%d arg=%d len=%d script=%d ops=%d %s" % (
         c["wb"], KIND_NAMES.get(c["kind"], "?"), c["ctor"], c["arg"], len(c["words"]), len(c["script"]),
         len(c["ops"]), sorted(hist.items()))
+
+
+def gen_bufmut(rng):
+    """C20 known class cursor_buf_mut_shrink: a Cursor<Vec> whose buffer is shrunk below `pos`
+    through the safe accessor buf_mut(), followed by a stack-semantics read."""
+    wb = rng.choice([8, 32])
+    n = rng.randint(1, 8)
+    words = [rng.randrange(1 << wb) for _ in range(n)]
+    ops = [17, rng.randint(0, n - 1), 1, 0, 13]
+    return [wb, 2, 1, 0, n] + words + [0] + ops
